@@ -689,17 +689,24 @@ def family_process_environment(thorough):
     heads = [[("sigint",)], [("ts", "t1")], [("sigint",), ("ts", "t1")], [("bytes", b"a"), ("sigint",)], [("event", "e1"), ("sigint",)], [("sched", "s_past", T - 1.0), ("sigint",)]]
     for head in heads:
         for tp in ((None, 0), (5.0, 0), (0, None), (5.0, 5.0)):
-            for slots in ("before", "between"):
-                script = (list(head) + [("req", tp[0]), ("req", tp[1])]) if slots == "before" else ([("req", 0)] + list(head) + [("req", tp[0]), ("req", tp[1])])
+            for slots in ("before", "between", "inside"):
+                if slots == "inside":  # listed behind the request: may arrive while it waits
+                    script = [("req", tp[0])] + list(head) + [("req", tp[1]), ("req", 0)]
+                else:
+                    script = (list(head) + [("req", tp[0]), ("req", tp[1])]) if slots == "before" else ([("req", 0)] + list(head) + [("req", tp[0]), ("req", tp[1])])
                 yield {"paste_threshold": 8, "sigint_event": True, "low_fds": True, "script": script, "family": "process_environment"}
     for n in (1, 2, 3):
         for extra in ([], [("bytes", b"a")], [("ts", "t1")], [("sched", "s_late", T + 8.0)]):
             for tp in (5.0, None):
                 if tp is None and not any(x[0] in ("bytes", "ts") for x in extra):
                     continue
-                script = [("sigwinch",)] * n + list(extra) + [("req", tp), ("req", 5.0), ("req", 0)]
-                yield {"paste_threshold": 8, "sigint_event": n % 2 == 0, "winch_handler": True, "script": script, "family": "process_environment"}
-                yield {"paste_threshold": 8, "sigint_event": True, "winch_handler": True, "low_fds": True, "script": script, "family": "process_environment"}
+                for where in ("before", "inside"):
+                    if where == "before":
+                        script = [("sigwinch",)] * n + list(extra) + [("req", tp), ("req", 5.0), ("req", 0)]
+                    else:
+                        script = [("req", tp)] + [("sigwinch",)] * n + list(extra) + [("req", 5.0), ("req", 0)]
+                    yield {"paste_threshold": 8, "sigint_event": n % 2 == 0, "winch_handler": True, "script": script, "family": "process_environment"}
+                    yield {"paste_threshold": 8, "sigint_event": True, "winch_handler": True, "low_fds": True, "script": script, "family": "process_environment"}
 
 
 def family_long_session(thorough):
